@@ -343,7 +343,11 @@ def run(tier, replay):
         for sp in structured_programs(rnd, 3000 if thorough else 200):
             text, keys = render_structured(sp)
             items.append(({"ev": "sprog", "prog": sp, "_keys": keys}, text))
-        for label, text, kind, classes, line in symbol_mutants(rnd):
+        muts = symbol_mutants(rnd)
+        # the same programs below a comment banner of multi-byte characters: class and (shifted) line must not change
+        banner = "// " + "\u2500" * 30 + " caf\u00e9\n"
+        muts += [(label + "+banner", banner + text, kind, classes, [x + 1 for x in line]) for label, text, kind, classes, line in muts]
+        for label, text, kind, classes, line in muts:
             if kind == "none":
                 items.append(({"ev": "valid", "label": label}, text))
             else:
